@@ -33,6 +33,7 @@ struct E1Config {
     int silentSuffix = 0;       // >= 2: from every stored state, all op sequences of this length without observers in between
     size_t silentSuffixStates = 1000000;
     unsigned long long stopAfterViolations = 2000;
+    bool observeEveryTransition = false; // run the state oracle on the result of every transition, not only on new states
     bool mergeDifferential = false; // one-step differential check whenever a transition merges into a stored state
     bool silentReduced = false; // silent-suffix pass uses one value per value-carrying operation kind
 };
@@ -214,7 +215,11 @@ template <class G> class Explorer {
         m.n = start;
         ClauseSink sink;
         sink.property = prop;
-        if (h.empty()) newStateClauses(g, m, sink);
+        {
+            ClauseSink warm;
+            warm.property = prop;
+            newStateClauses(g, m, h.empty() ? sink : warm);
+        }
         for (size_t k = 0; k < h.size(); ++k) {
             G g2(g);
             Model m2(m);
@@ -224,6 +229,12 @@ template <class G> class Explorer {
             if (k + 1 == h.size()) {
                 stepClauses(g, m, h[k], g2, m2, real, want, sink);
                 newStateClauses(g2, m2, sink);
+            } else {
+                // the search calls every observer on every object of the lineage: do the same here
+                ClauseSink warm;
+                warm.property = prop;
+                stepClauses(g, m, h[k], g2, m2, real, want, warm);
+                newStateClauses(g2, m2, warm);
             }
             g = g2;
             m = m2;
@@ -310,7 +321,10 @@ template <class G> class Explorer {
                 }
                 auto it = index.find(k);
                 bool isNew = it == index.end();
-                if (isNew) {
+                if (isNew || cfg.observeEveryTransition) {
+                    // (observeEveryTransition: the object that went through THIS history is observed even
+                    // when an indistinguishable state is already stored - state that neither the key nor ==
+                    // shows, e.g. a stale cache, is then still confronted with every observer)
                     newStateClauses(g2, m2, sink);
                 } else if (!(recs[it->second].m == m2)) {
                     // same concrete state reached with a different abstract value: the observers were
